@@ -51,7 +51,11 @@ def snap(v, depth=0):
     if isinstance(v, tuple):
         return ("tuple", [snap(x, depth + 1) for x in v])
     if hasattr(v, "__iter__") and hasattr(v, "__len__"):  # list, KeyedList, KeyedSet, ...
-        return ("seq", id(v), type(v).__name__, [snap(x, depth + 1) for x in v])
+        items = [snap(x, depth + 1) for x in v]
+        if hasattr(v, "keys") and hasattr(v, "index_for_key") or hasattr(v, "enforce_item_equivalence"):
+            # keyed containers: the key view is part of the observable state
+            items = items + [("leaf", ("keys", tuple(str(k) for k in v.keys())))]
+        return ("seq", id(v), type(v).__name__, items)
     return ("obj", id(v))
 
 
